@@ -181,7 +181,7 @@ pub enum Op {
     RAssert { s: u64, funds: Coins, asset: A, prev: u128, min: u128, rcv: u64 },
     RReceive { s: u64, funds: Coins, from: u64, amount: u128, hook: Hook },
     FCfg { s: u64, funds: Coins, owner: Option<u64>, tcode: Option<u64>, pcode: Option<u64> },
-    FCreate { s: u64, funds: Coins, a0: A, a1: A, wl: Vec<u64>, min0: u128, min1: u128, comm: Option<u128> },
+    FCreate { s: u64, funds: Coins, a0: A, a1: A, wl: Vec<u64>, min0: u128, min1: u128, comm: Option<u128>, lpd: Option<u8> },
     FAdd { s: u64, funds: Coins, denom: u64, decimals: u8 },
     FMig { s: u64, funds: Coins, p: u64, code: Option<u64> },
 }
@@ -217,8 +217,8 @@ impl std::fmt::Display for Op {
             Op::RAssert { s, funds, asset, prev, min, rcv } => write!(f, "r_assert {s} {} {asset} {prev} {min} {rcv}", coins_str(funds)),
             Op::RReceive { s, funds, from, amount, hook } => write!(f, "r_receive {s} {} {from} {amount} {hook}", coins_str(funds)),
             Op::FCfg { s, funds, owner, tcode, pcode } => write!(f, "f_cfg {s} {} {} {} {}", coins_str(funds), o(owner), o(tcode), o(pcode)),
-            Op::FCreate { s, funds, a0, a1, wl, min0, min1, comm } => {
-                write!(f, "f_create {s} {} {a0} {a1} {} {min0} {min1} {}", coins_str(funds), list_str(wl), o(comm))
+            Op::FCreate { s, funds, a0, a1, wl, min0, min1, comm, lpd } => {
+                write!(f, "f_create {s} {} {a0} {a1} {} {min0} {min1} {} {}", coins_str(funds), list_str(wl), o(comm), o(lpd))
             }
             Op::FAdd { s, funds, denom, decimals } => write!(f, "f_add {s} {} {denom} {decimals}", coins_str(funds)),
             Op::FMig { s, funds, p, code } => write!(f, "f_mig {s} {} {p} {}", coins_str(funds), o(code)),
@@ -252,7 +252,7 @@ pub fn parse_op(t: &[&str]) -> Op {
         "f_create" => Op::FCreate {
             s: n(1), funds: parse_coins(t[2]), a0: parse_asset(t[3]), a1: parse_asset(t[4]),
             wl: if t[5] == "-" { vec![] } else { t[5].split(',').map(|x| x.parse().unwrap()).collect() },
-            min0: a(6), min1: a(7), comm: po(t[8]),
+            min0: a(6), min1: a(7), comm: po(t[8]), lpd: t.get(9).and_then(|x| po(x)),
         },
         "f_add" => Op::FAdd { s: n(1), funds: parse_coins(t[2]), denom: n(3), decimals: n(4) as u8 },
         "f_mig" => Op::FMig { s: n(1), funds: parse_coins(t[2]), p: n(3), code: t.get(4).and_then(|x| po(x)) },
@@ -451,7 +451,7 @@ impl<'a> Env<'a> {
                 Op::FCfg { s, funds, owner, tcode, pcode } => app.execute_contract(
                     me.addr(*s), me.addr(me.factory),
                     &FacExec::UpdateConfig { owner: owner.map(|x| me.astr(x)), token_code_id: *tcode, pair_code_id: *pcode }, &me.coins(funds)),
-                Op::FCreate { s, funds, a0, a1, wl, min0, min1, comm } => app.execute_contract(
+                Op::FCreate { s, funds, a0, a1, wl, min0, min1, comm, lpd } => app.execute_contract(
                     me.addr(*s), me.addr(me.factory),
                     &FacExec::CreatePair {
                         asset_infos: [me.info(*a0), me.info(*a1)],
@@ -461,7 +461,7 @@ impl<'a> Env<'a> {
                             second_asset_minimum: Uint128::new(*min1),
                         },
                         commission_rate: comm.map(|c| Decimal256(bigint::U256::from_dec_str(&c.to_string()).unwrap())),
-                        lp_token_info: LPTokenInfo { lp_token_name: "halo-lp".into(), lp_token_symbol: "HALOLP".into(), lp_token_decimals: None },
+                        lp_token_info: LPTokenInfo { lp_token_name: "halo-lp".into(), lp_token_symbol: "HALOLP".into(), lp_token_decimals: *lpd },
                     }, &me.coins(funds)),
                 Op::FAdd { s, funds, denom, decimals } => app.execute_contract(
                     me.addr(*s), me.addr(me.factory),
@@ -630,6 +630,10 @@ impl<'a> Env<'a> {
             let r: Result<cw20::AllowanceResponse, _> = self.app.wrap()
                 .query_wasm_smart(self.astr(t), &Cw20QueryMsg::Allowance { owner: self.astr(owner), spender: self.astr(spender) });
             self.put(format!("allow {t} {owner} {spender}"), match r { Ok(x) => x.allowance.to_string(), Err(_) => "err".into() });
+        }
+        for pm in self.pairs.clone().iter().take(8) {
+            let r: Result<cw20::TokenInfoResponse, _> = self.app.wrap().query_wasm_smart(self.astr(pm.lp), &Cw20QueryMsg::TokenInfo {});
+            self.put(format!("tdec {}", pm.lp), match r { Ok(x) => x.decimals.to_string(), Err(_) => "err".into() });
         }
         let cfg: ConfigResponse = self.app.wrap().query_wasm_smart(self.astr(self.factory), &FacQuery::Config {}).unwrap();
         let oid = self.aid(&cfg.owner);
@@ -969,7 +973,8 @@ impl Gen {
             let mu = self.unit.min(1u128 << 62) / 1000;
             let m0 = r.below(3) as u128 * mu;
             let m1 = r.below(3) as u128 * mu;
-            e.step(Op::FCreate { s: owner, funds: vec![], a0, a1, wl, min0: m0, min1: m1, comm });
+            let lpd = match r.below(8) { 0 => Some(0u8), 1 => Some(8), 2 => Some(18), _ => None };
+            e.step(Op::FCreate { s: owner, funds: vec![], a0, a1, wl, min0: m0, min1: m1, comm, lpd });
         }
         // allowances toward the pairs, including from bystanders that never act
         for pm in e.pairs.clone() {
@@ -995,6 +1000,7 @@ impl Gen {
                 let cap = 1u128 << 62;
                 let d0 = self.unit.saturating_mul(1 + r.below(1000) as u128).min(cap - r.below(1000) as u128);
                 let d1 = (self.unit.saturating_mul(1 + r.below(1000) as u128) / (1 + r.below(3) as u128)).min(cap - r.below(1000) as u128);
+                let d1 = if pm.a0 == pm.a1 { d0 } else { d1 };
                 let funds = self.plain_funds(&[(pm.a0, d0), (pm.a1, d1)]);
                 e.step(Op::Provide { s, p: pm.addr, funds, as0: pm.a0, am0: d0, as1: pm.a1, am1: d1, tol: None, rcv: None });
                 if self.unit > cap && r.chance(2, 3) {
@@ -1016,7 +1022,13 @@ impl Gen {
         e.denoms.iter().position(|d| *d == name).map(|i| i as u64)
     }
     fn plain_funds(&self, assets: &[(A, u128)]) -> Coins {
-        assets.iter().filter_map(|(a, amt)| if let A::N(d) = a { Some((*d, *amt)) } else { None }).collect()
+        let mut c: Coins = vec![];
+        for (a, amt) in assets {
+            if let A::N(d) = a {
+                if !c.iter().any(|x| x.0 == *d) { c.push((*d, *amt)); }
+            }
+        }
+        c
     }
 
     fn route(&self, e: &Env, r: &mut Rng) -> Vec<(A, A)> {
@@ -1041,7 +1053,7 @@ impl Gen {
             cur_to = nxt;
             ops.push((cur_from, cur_to));
         }
-        match r.below(16) {
+        match r.below(24) {
             0 => ops.clear(),
             1 => ops.push((self.any_asset(e, r), self.any_asset(e, r))), // dangling / unchained
             2 if ops.len() > 1 => { ops.swap(0, 1); }
@@ -1111,7 +1123,29 @@ impl Gen {
             "swap" => {
                 let (offer, ro) = if r.chance(1, 2) { (pm.a0, r0) } else { (pm.a1, r1) };
                 let amt = match r.below(6) { 0 => amt_rel(r, ro), 1 => 1 + r.below(1_000_000) as u128, _ => ro / (1 + r.below(200) as u128) + r.below(3) as u128 };
-                let (belief, ms) = match r.below(6) {
+                let (belief, ms) = match r.below(7) {
+                    // a belief price placed around the price this very swap would execute at (from the pair's own quote and
+                    // decimals), with a tolerance of the same order: the guard is exercised on both sides of its limit
+                    6 => {
+                        let ask = if offer == pm.a0 { pm.a1 } else { pm.a0 };
+                        let dec: Option<(u8, u8)> = e.app.wrap().query_wasm_smart::<PairInfo>(e.astr(pm.addr), &haloswap::pair::QueryMsg::Pair {}).ok()
+                            .map(|pi| if offer == pm.a0 { (pi.asset_decimals[0], pi.asset_decimals[1]) } else { (pi.asset_decimals[1], pi.asset_decimals[0]) });
+                        match (self.sim_route(e, amt, &[(offer, ask)]), dec) {
+                            (Some(ret), Some((od, rd))) if ret > 0 && amt > 0 && od <= 24 && rd <= 24 => {
+                                let (o2, r2) = if od > rd { (amt, ret.saturating_mul(10u128.pow((od - rd) as u32))) } else { (amt.saturating_mul(10u128.pow((rd - od) as u32)), ret) };
+                                let f = [970u128, 990, 999, 1000, 1001, 1010, 1030][r.below(7) as usize];
+                                // belief = o2 / (r2 * f/1000)  at 18 decimals, computed in 256 bits
+                                let u = |x: u128| bigint::U256::from_dec_str(&x.to_string()).unwrap();
+                                let num = u(o2) * u(E18) * u(1000);
+                                let den = u(r2) * u(f);
+                                let b = if den.is_zero() { bigint::U256::zero() } else { num / den };
+                                if b.is_zero() || b > u(u128::MAX) { (None, Some(pick_rate(r))) } else {
+                                    (Some(b.to_string().parse::<u128>().unwrap()), Some([E18 / 1000, E18 / 100, E18 * 3 / 100][r.below(3) as usize]))
+                                }
+                            }
+                            _ => (None, Some(pick_rate(r))),
+                        }
+                    }
                     0 => (Some(1 + r.below(E18 as u64 * 3) as u128), Some(pick_rate(r))),
                     1 => (None, Some(pick_rate(r))),
                     2 => (Some(E18), None),
@@ -1176,6 +1210,8 @@ impl Gen {
                     _ => (pm.a0, pm.a1),
                 };
                 let (m0, m1) = if x0 == pm.a1 && x1 == pm.a0 { (d1, d0) } else { (d0, d1) };
+                // the same asset on both sides can only be matched by one coin of one amount
+                let m1 = if x0 == x1 { m0 } else { m1 };
                 // rarely: declare a token deposit under the native denom that reads like the token's address
                 let x0 = match x0 { A::T(t) if r.chance(1, 25) => self.alias_of(e, t).map(A::N).unwrap_or(x0), _ => x0 };
                 let funds = self.funds_for(r, &[(x0, m0), (x1, m1)]);
@@ -1354,8 +1390,10 @@ impl Gen {
                 let ops = self.route(e, r);
                 let first_offer = ops.first().map(|x| x.0).unwrap_or(pm.a0);
                 let bal_u = e.bal(first_offer, u);
-                let rr = e.bal(first_offer, pm.addr);
-                let amt = match r.below(5) { 0 => amt_rel(r, bal_u / 1000), 1 => 1 + r.below(1_000_000) as u128, _ => (rr / (1 + r.below(300) as u128)).min(bal_u / 2) + r.below(2) as u128 };
+                // size the input against the reserve of the pool the first hop actually trades on
+                let first_pool = ops.first().and_then(|(o, a)| e.pairs.iter().find(|p| (p.a0 == *o && p.a1 == *a) || (p.a1 == *o && p.a0 == *a))).map(|p| p.addr).unwrap_or(pm.addr);
+                let rr = e.bal(first_offer, first_pool);
+                let amt = match r.below(10) { 0 => amt_rel(r, bal_u / 1000), 1 => 1 + r.below(1_000_000) as u128, _ => (rr / (1 + r.below(300) as u128)).min(bal_u / 2) + r.below(2) as u128 };
                 // quote first (forward simulation), then possibly let another trader move the pool
                 e.q_router(false, amt, &ops);
                 let quoted = self.sim_route(e, amt, &ops);
@@ -1370,9 +1408,9 @@ impl Gen {
                     e.q_router(false, amt, &ops);
                 }
                 let quoted2 = self.sim_route(e, amt, &ops).or(quoted);
-                let min = match r.below(7) {
-                    0 => None,
-                    1 => quoted2.map(|q| q.saturating_sub(1)),
+                let min = match r.below(10) {
+                    0 | 7 | 8 => None,
+                    1 | 9 => quoted2.map(|q| q.saturating_sub(1)),
                     2 => quoted2,
                     3 => quoted2.map(|q| q.saturating_add(1)),
                     4 => Some(u128::MAX),
@@ -1407,14 +1445,17 @@ impl Gen {
                 let s = if r.chance(5, 6) { owner } else { u };
                 match r.below(10) {
                     0 | 1 | 2 => {
-                        let a0 = self.any_asset(e, r);
+                        // sometimes one side is the LP token of an existing pair (a cw20 like any other, with the decimals
+                        // that pair's creator chose)
+                        let a0 = if r.chance(1, 5) { A::T(r.pick(&e.pairs[..e.pairs.len().min(8)]).lp) } else { self.any_asset(e, r) };
                         let a1 = if r.chance(1, 10) { a0 } else if r.chance(1, 8) {
                             // a token named in upper case — possibly the very same contract as a0
                             match a0 { A::T(t) if r.chance(1, 2) => A::T(e.alias_tokens[e.tokens.iter().position(|x| *x == t).unwrap_or(0)]),
                                        _ => A::T(*r.pick(&e.alias_tokens)) }
                         } else { self.any_asset(e, r) };
                         let comm = match r.below(5) { 0 => None, 1 => Some(E18 + 1), _ => Some(pick_rate(r)) };
-                        Op::FCreate { s, funds: vec![], a0, a1, wl: vec![e.users[1], e.users[2]], min0: 0, min1: 0, comm }
+                        Op::FCreate { s, funds: vec![], a0, a1, wl: vec![e.users[1], e.users[2]], min0: 0, min1: 0, comm,
+                                      lpd: match r.below(10) { 0 => Some(0), 1 => Some(6), 2 => Some(9), 3 => Some(18), 4 => Some(19), 5 => Some(255), _ => None } }
                     }
                     3 | 4 | 5 | 6 => {
                         let d = r.below(e.denoms.len() as u64);
@@ -1444,7 +1485,7 @@ impl Gen {
                 let s = if (s as usize) < 6 { s } else { u }; // contracts cannot originate calls; a user stands in
                 match r.below(7) {
                     0 => Op::FCfg { s, funds: vec![], owner: Some(s), tcode: if r.chance(1, 3) { Some(e.token_code) } else { None }, pcode: None },
-                    1 => Op::FCreate { s, funds: vec![], a0: A::N(0), a1: A::T(e.tokens[2]), wl: vec![s], min0: 0, min1: 0, comm: None },
+                    1 => Op::FCreate { s, funds: vec![], a0: A::N(0), a1: A::T(e.tokens[2]), wl: vec![s], min0: 0, min1: 0, comm: None, lpd: None },
                     2 => Op::FAdd { s, funds: vec![], denom: r.below(ND), decimals: 7 },
                     3 => Op::FMig { s, funds: vec![], p: pm.addr, code: None },
                     4 => Op::PairUpd { s, p: pm.addr, funds: vec![], denom: r.below(ND), da: 9, db: 9 },
@@ -1564,13 +1605,26 @@ pub fn run(w: &mut dyn Write, family: &str, nseq: u64, nsteps: u64, seed: u64) {
             }
             for (a0, a1) in combos.into_iter().take(extra as usize) {
                 let owner = e.users[0];
-                e.step(Op::FCreate { s: owner, funds: vec![], a0, a1, wl: vec![e.users[1]], min0: 0, min1: 0, comm: None });
+                e.step(Op::FCreate { s: owner, funds: vec![], a0, a1, wl: vec![e.users[1]], min0: 0, min1: 0, comm: None, lpd: None });
             }
         }
         for _ in 0..nsteps {
             if let Some(op) = g.gen_op(&mut e, &mut r, family) {
                 pre_queries(&mut e, &op);
+                let before = e.pairs.len();
                 e.step(op);
+                if e.pairs.len() > before && e.pairs.len() <= 8 {
+                    // a pair created in mid-sequence: the usual allowances toward it, so that provisions can follow
+                    let pm = e.pairs[e.pairs.len() - 1].clone();
+                    for a in [pm.a0, pm.a1] {
+                        if let A::T(t) = a {
+                            for u in [e.users[1], e.users[2], e.users[3]] {
+                                e.step(Op::TokInc { t, owner: u, spender: pm.addr, amt: u128::MAX / 4 });
+                                if !e.allow_watch.contains(&(t, u, pm.addr)) { e.allow_watch.push((t, u, pm.addr)); }
+                            }
+                        }
+                    }
+                }
                 if family == "factory" && r.chance(1, 4) {
                     let lim = match r.below(4) { 0 => None, 1 => Some(r.range(1, 5) as u32), 2 => Some(40), _ => Some(r.range(1, 31) as u32) };
                     let start = if r.chance(1, 2) || e.pairs.is_empty() { None } else { let pm = r.pick(&e.pairs).clone(); Some(if r.chance(1, 2) { (pm.a0, pm.a1) } else { (pm.a1, pm.a0) }) };
